@@ -627,7 +627,7 @@ def async_test(uni, rng, idx, nops=14, nslots=5):
 
 # --------------------------------------------------------------------------- concurrent histories (C08 / C09)
 
-def conc_test(uni, rng, idx, nthreads=3, nops=3, nslots=4, race=False, reopen=None, cfgs=None):
+def conc_test(uni, rng, idx, nthreads=3, nops=3, nslots=4, race=False, reopen=None, cfgs=None, hang=False):
     cm = uni["casemul"]
 
     def obj(slot, batch=False):
@@ -670,8 +670,10 @@ def conc_test(uni, rng, idx, nthreads=3, nops=3, nslots=4, race=False, reopen=No
                 ops.append({"op": "delq", "q": [{"f": "A", "op": rng.choice(QOPS), "p": 4 + rng.randrange(2)}]})
             if race and rng.random() < 0.08:
                 ops.append({"op": rng.choice(["flush", "control", "aidx"])})
-            if race and rng.random() < 0.04:
+            if (race or hang) and rng.random() < (0.12 if hang else 0.04):
                 ops.append({"op": "switch", "cfg": {"cache": rng.random() < 0.5, "async": rng.random() < 0.5}})
+            if hang and rng.random() < 0.06:
+                ops.append({"op": "closecall"})
         threads.append(ops)
     c = rng.choice(cfgs) if cfgs else (rng.random() < 0.4, rng.random() < 0.3)
     t = {"id": "cc%d" % idx, "cfg": make_cfg(c[0], c[1], rng.randrange(len(STORAGE)), thr=rng.choice([1, 2, 100000]), tmo_ms=rng.choice([100, 3600000])),
